@@ -850,12 +850,29 @@ func (c *Ctx) hashIndexCounter() {
 			plain[ph] = true
 		}
 	})
-	if len(sig) == 0 {
+	// the closed form of that counter: popcount of the mask below the level, mask.Apply(i).HashIndex()
+	closedForm := func(x ssa.Value) bool {
+		cl := callOf(x)
+		if cl == nil || !strings.HasSuffix(callQName(&cl.Call), "levelMask.HashIndex") {
+			return false
+		}
+		return derivesFrom(cl.Call.Args[0], callResult(bocPath+".levelMask.Apply"), false)
+	}
+	hasClosed := false
+	for _, ci := range callsIn(f) {
+		if v, ok := ci.(*ssa.Call); ok && closedForm(v) {
+			hasClosed = true
+		}
+	}
+	if len(sig) == 0 && !hasClosed {
 		c.bad(R, "a counter of significant levels exists", f.Pos(), "newImmutableCell has no counter that is incremented only for significant levels: the position of a level's hash among the stored hashes is the number of significant levels below it, not the level")
 		return
 	}
 	fromSig := func(v ssa.Value) bool {
 		return derivesFrom(v, func(x ssa.Value) bool {
+			if closedForm(x) {
+				return true
+			}
 			if ph, ok := x.(*ssa.Phi); ok && sig[ph] {
 				return true
 			}
